@@ -52,6 +52,10 @@ out += ["", "%d runs of seeded changes against checks (a change seeded for C01 i
         "* `C01-qbft-decided-dup-commits`, `C01-parsigdb-internal-reject-leak`: component slips outside the one-validator simulator's honest paths; C01's check now also runs the consensus (`qbft`) and partial-signature-store (`parsigdb`) streams; new monitor `parsigdb:rejected_set_exchanged`.",
         "* `C11-r1cast-dedup-wrong-round`, `C11-r2cast-dup-fallthrough` (FROST transport glue loses its de-duplication): the in-memory transport bypassed `dkg/frostp2p.go`; new stream `frostp2p` drives the real callbacks and `frostP2P.Round1/Round2` with re-delivered broadcasts (theorems `round1_one_from_each_peer`, `round2_one_from_each_peer`).",
         "* `C13-hash-any-boundary` was first reported only as a broken correspondence (no failing input); monitor `bcast:signed_hash_collision` now gives the colliding pair.",
+        "* `C02-instance-io-released-on-decide` (the wrapper deletes the instance IO after a decision: a late `Propose` starts a second `qbft.Run`): C02's check now runs the wrapper stream `conswrap` and `C03Wrap.one_run_per_duty` (one run per duty and node is a premise of the agreement proof).",
+        "* `C15-invalidate-cache-short-circuit` (`InvalidateCache` short-circuits after the proposer cache): the scheduler driver uses a scripted beacon node, not the duties cache; C15's check now runs the cache stream of C20 with its answer-equality monitors.",
+        "* `C06-deadliner-backpressure-deadlock` (the deadliner blocks on a full output buffer; `dutydb.Store` then blocks in `Add` under its lock): the dutydb driver uses a scripted deadliner; the real deadliner's stream (with new monitor `deadliner:add_blocked`) is now part of C06's check.",
+        "* `C06-att-answer-shallow-copy` (answers share their checkpoints with the stored value): the driver never touched what it received; it now scribbles over every answer (`hx.Scribble`, the hostile caller), likewise the aggsigdb driver.",
         ""]
 txt = "\n".join(out)
 p = '/verif/DESIGN.md'
